@@ -51,7 +51,7 @@ package builder
 //@ pred RecOK(p *parser) bool = (forall j int :: {p.recoveryStack[j]} 0 <= j && j < len(p.recoveryStack) ==> alloc(p.recoveryStack[j]))
 //@   | && (forall j int, k int :: {p.recoveryStack[j], p.vstack[k]} 0 <= j && j < len(p.recoveryStack) && 0 <= k && k < cap(p.vstack) ==> p.recoveryStack[j] != p.vstack[k])
 //@   | && (forall j int, l string :: {has(p.recoveryStack[j], l)} 0 <= j && j < len(p.recoveryStack) && has(p.recoveryStack[j], l) ==> IsNode(p.recoveryStack[j][l]))
-//@ pred Inv(p *parser) bool = Ctx(p) && SP(p.data, p.pt)
+//@ pred Inv(p *parser) bool = Ctx(p) && SP(p.data, p.pt) && StateOK(p)
 //@ pred InRule(p *parser) bool = len(p.vstack) >= 1 && len(p.rstack) >= 1
 //@ #if dbg
 //@ pred DbgOK(p *parser) bool = p.ChoiceAltCnt != nil
@@ -477,23 +477,99 @@ package builder
 //@ axiom wf-bltable: forall c *charClassMatcher, r rune :: {c.basicLatinChars[r]} c != nil && 0 <= r && r < 128 ==> c.basicLatinChars[r] == ClassHit(c, foldC(c, r))
 //@ #endif
 
+
+// ======================================================================================
+// State store (C05, C18)
+// ======================================================================================
+
+// CloneEq(a,b): a is b, or a was obtained from b by Cloner.Clone (reflexive, transitive; read "a is a later snapshot of b"):
+// the abstract "same store value" of C05 (a clone stands for the value at snapshot time).
+//@ spec func CloneEq(a any, b any) bool
+//@ axiom cloneeq-refl: forall a any :: {CloneEq(a, a)} CloneEq(a, a)
+//@ axiom cloneeq-trans: forall a any, b any, c any :: {CloneEq(a, b), CloneEq(b, c)} CloneEq(a, b) && CloneEq(b, c) ==> CloneEq(a, c)
+// StEq: two store contents are the same store: same keys, same values up to cloning.
+//@ pred StEq(d1 set[string], v1 arr[string]any, d2 set[string], v2 arr[string]any) bool =
+//@   | forall k string :: {sel(d1, k)} sel(d1, k) == sel(d2, k) && (sel(d1, k) ==> CloneEq(sel(v1, k), sel(v2, k)))
+//@ #if state
+//@ pred StateOK(p *parser) bool = p.cur.state != nil && alloc(p.cur.state) && p.cur.globalStore != nil && alloc(p.cur.globalStore) && p.cur.state != p.cur.globalStore
+// StoreSame: the store seen by later code blocks is the store as it was at entry.
+//@ pred StoreSame(p *parser) bool = StEq(mapdom(p.cur.state), mapval(p.cur.state), old(mapdom(p.cur.state)), old(mapval(p.cur.state)))
+//@ pred OnFailStore(p *parser, ok bool) bool = !ok ==> StoreSame(p)
+// StoreId: the current store map is the one at entry or one allocated since.
+//@ pred StoreId(p *parser) bool = p.cur.state == old(p.cur.state) || fresh(p.cur.state)
+// StoreFrame: store maps that existed at entry, other than the then-current store and the global
+// store, keep their contents (in particular: snapshots held by callers).
+//@ pred StoreFrame(p *parser) bool = forall x storeDict :: {mapdom(x)} old(alloc(x)) && x != old(p.cur.state) && x != p.cur.globalStore ==> mapdom(x) == old(mapdom(x)) && mapval(x) == old(mapval(x))
+//@ pred LoopStore(p *parser) bool = StoreId(p) && StoreFrame(p) && p.cur.globalStore == old(p.cur.globalStore)
+//@ pred StoreC(p *parser, ok bool) bool = OnFailStore(p, ok) && StoreId(p) && StoreFrame(p) && p.cur.globalStore == old(p.cur.globalStore)
+// Snap(p, s): s is a snapshot of the store as it was at entry, still intact and not the current store.
+//@ pred Snap(p *parser, s storeDict) bool = s != nil && alloc(s) && s != p.cur.state && s != p.cur.globalStore
+//@   | && StEq(mapdom(s), mapval(s), old(mapdom(p.cur.state)), old(mapval(p.cur.state)))
+
+// user values: Clone returns an independent copy (assumption about user code)
+//@ extern Cloner.Clone(c Cloner) (v any)
+//@   pure
+//@   ensures CloneEq(v, c)
+
+// statePool: Get hands out an empty map nobody else refers to (sound because Put is only given
+// cleared maps that are not referenced again: see Discard / restoreState)
+//@ extern Pool.Get(pl *sync.Pool) (x any)
+//@   ensures is(x, "storeDict") && fresh(as(x, "storeDict")) && forall k string :: {has(as(x, "storeDict"), k)} !has(as(x, "storeDict"), k)
+//@ extern Pool.Put(pl *sync.Pool, x any)
+//@   requires [cleared C05 C18] is(x, "storeDict") ==> forall k string :: !has(as(x, "storeDict"), k)
+
+//@ func (sd storeDict) Discard()
+//@   requires [nonnil] sd != nil
+//@   modifies mapof(sd)
+//@   ensures [cleared C05 C18] forall k string :: {has(sd, k)} !has(sd, k)
+//@   loop#1 invariant [deleted C05] forall k string :: {has(sd, k)} (sel(visited, k) ==> !has(sd, k)) && (has(sd, k) ==> sel(dom1, k))
+//@   safety C11
+//@   frame C05 C18
+
+//@ func (p *parser) cloneState() (r storeDict)
+//@   requires [ctx] p != nil && StateOK(p)
+//@   modifies p.depth
+//@   ensures [fresh C05 C18] fresh(r)
+//@   ensures [snapshot C05] StEq(mapdom(r), mapval(r), mapdom(p.cur.state), mapval(p.cur.state))
+//@   loop#1 invariant [copy C05] forall k string :: {has(state, k)} (has(state, k) == sel(visited, k)) && (sel(visited, k) ==> CloneEq(state[k], p.cur.state[k]))
+//@   loop#1 invariant [src C05] state != p.cur.state && state != nil && (forall k string :: {sel(dom1, k)} sel(dom1, k) == has(p.cur.state, k)) && mapval(p.cur.state) == old(mapval(p.cur.state)) && mapdom(p.cur.state) == old(mapdom(p.cur.state))
+//@   safety C11
+//@   frame C05 C18
+
+//@ func (p *parser) restoreState(state storeDict)
+//@   requires [ctx] p != nil && StateOK(p)
+// each clone is restored at most once and never while it is the current store (linear use)
+//@   requires [linear C05 C18] state != nil && alloc(state) && state != p.cur.state && state != p.cur.globalStore
+//@   modifies p.cur, mapof(p.cur.state), p.depth
+//@   ensures [swap C05] p.cur.state == state && p.cur.globalStore == old(p.cur.globalStore) && p.cur.pos == old(p.cur.pos) && p.cur.text == old(p.cur.text)
+//@   ensures [ok C05] StateOK(p)
+//@   safety C11
+//@   frame C05 C18
+//@ #else
+//@ pred StateOK(p *parser) bool = true
+//@ pred OnFailStore(p *parser, ok bool) bool = true
+//@ pred StoreC(p *parser, ok bool) bool = true
+//@ pred LoopStore(p *parser) bool = true
+//@ pred StoreSame(p *parser) bool = true
+//@ #endif
+
 // ======================================================================================
 // User code blocks: declared call contracts (assumption about user code: a block touches only
 // the user-visible stores and its own data; it may panic)
 // ======================================================================================
 
 //@ extern actionExpr.run(p *parser) (v any, err error)
-//@   modifies all storeDict
+//@   modifies mapof(p.cur.state), mapof(p.cur.globalStore)
 //@   panics [user] true
 //@ extern andCodeExpr.run(p *parser) (b bool, err error)
-//@   modifies all storeDict
+//@   modifies mapof(p.cur.state), mapof(p.cur.globalStore)
 //@   panics [user] true
 //@ extern notCodeExpr.run(p *parser) (b bool, err error)
-//@   modifies all storeDict
+//@   modifies mapof(p.cur.state), mapof(p.cur.globalStore)
 //@   panics [user] true
 //@ #if state
 //@ extern stateCodeExpr.run(p *parser) (err error)
-//@   modifies all storeDict
+//@   modifies mapof(p.cur.state), mapof(p.cur.globalStore)
 //@   panics [user] true
 //@ #endif
 
@@ -515,6 +591,7 @@ package builder
 //@   ensures [inv C01] Inv(p) && InRule(p)
 //@   ensures [peg C01] D(expr, p.data, old(p.pt.offset), ok, p.pt.offset, val)
 //@   ensures [shape C01] Shape(p, val, ok)
+//@   ensures [store C05] StoreC(p, ok)
 //@   ensures [stacks C02 C14] Stacks(p)
 //@   ensures [invert C12] p.maxFailInvertExpected == old(p.maxFailInvertExpected)
 //@   ensures [charges C16] p.ExprCnt > old(p.ExprCnt)
@@ -529,6 +606,7 @@ package builder
 //@   ensures [inv C01] Inv(p) && InRule(p)
 //@   ensures [peg C01 C06] D(expr, p.data, old(p.pt.offset), ok, p.pt.offset, val)
 //@   ensures [shape C01 C06] Shape(p, val, ok)
+//@   ensures [store C05] StoreC(p, ok)
 //@   ensures [stacks C02 C14] Stacks(p)
 //@   ensures [invert C12] p.maxFailInvertExpected == old(p.maxFailInvertExpected)
 //@   ensures [charges C16] p.ExprCnt > old(p.ExprCnt)
@@ -543,6 +621,7 @@ package builder
 //@   ensures [inv C01] Inv(p)
 //@   ensures [peg-rule C01] DR(rule, p.data, old(p.pt.offset), ok, p.pt.offset, val)
 //@   ensures [shape C01] Shape(p, val, ok)
+//@   ensures [store C05] StoreC(p, ok)
 //@   ensures [stacks C02 C11 C14] Stacks(p)
 //@   ensures [invert C12] p.maxFailInvertExpected == old(p.maxFailInvertExpected)
 //@   ensures [charges C16] p.ExprCnt > old(p.ExprCnt) && p.ExprCnt <= p.maxExprCnt
@@ -556,6 +635,7 @@ package builder
 //@   ensures [inv C01] Inv(p)
 //@   ensures [peg-rule C01 C06] DR(rule, p.data, old(p.pt.offset), ok, p.pt.offset, val)
 //@   ensures [shape C01] Shape(p, val, ok)
+//@   ensures [store C05] StoreC(p, ok)
 //@   ensures [stacks C02 C11 C14] Stacks(p)
 //@   ensures [invert C12] p.maxFailInvertExpected == old(p.maxFailInvertExpected)
 //@   ensures [budget C16] p.ExprCnt >= old(p.ExprCnt) && (old(p.ExprCnt) <= p.maxExprCnt ==> p.ExprCnt <= p.maxExprCnt)
@@ -570,6 +650,7 @@ package builder
 //@   ensures [inv C01] Inv(p) && InRule(p)
 //@   ensures [peg-ref C01] D(ref, p.data, old(p.pt.offset), ok, p.pt.offset, val)
 //@   ensures [shape C01] Shape(p, val, ok)
+//@   ensures [store C05] StoreC(p, ok)
 //@   ensures [stacks C02 C14] Stacks(p)
 //@   ensures [invert C12] p.maxFailInvertExpected == old(p.maxFailInvertExpected)
 //@   ensures [budget C16] Budget(p)
@@ -584,10 +665,14 @@ package builder
 //@   ensures [inv C01] Inv(p) && InRule(p)
 //@   ensures [peg-seq C01] D(seq, p.data, old(p.pt.offset), ok, p.pt.offset, val)
 //@   ensures [shape C01] Shape(p, val, ok)
+//@   ensures [store C05] StoreC(p, ok)
 //@   ensures [stacks C02 C14] Stacks(p)
 //@   ensures [invert C12] p.maxFailInvertExpected == old(p.maxFailInvertExpected)
 //@   ensures [budget C16] Budget(p)
 //@   loop#1 invariant [inv] Inv(p) && InRule(p) && pt == old(p.pt)
+//@ #if state
+//@   loop#1 invariant [snap C05] Snap(p, state) && LoopStore(p)
+//@ #endif
 //@   loop#1 invariant [prefix C01] SeqPre(seq, p.data, idx, old(p.pt.offset), p.pt.offset, arr(vals)) && len(vals) == idx && off(vals) == 0
 //@   loop#1 invariant [mono] p.pt.offset >= old(p.pt.offset) && Budget(p)
 //@   loop#1 invariant [stacks C02 C14] Stacks(p) && p.maxFailInvertExpected == old(p.maxFailInvertExpected)
@@ -602,10 +687,12 @@ package builder
 //@   ensures [inv C01] Inv(p) && InRule(p)
 //@   ensures [peg-choice C01] D(ch, p.data, old(p.pt.offset), ok, p.pt.offset, val)
 //@   ensures [shape C01] Shape(p, val, ok)
+//@   ensures [store C05] StoreC(p, ok)
 //@   ensures [stacks C02 C14] Stacks(p)
 //@   ensures [invert C12] p.maxFailInvertExpected == old(p.maxFailInvertExpected)
 //@   ensures [budget C16] Budget(p)
 //@   loop#1 invariant [inv] Inv(p) && InRule(p) && p.pt == old(p.pt)
+//@   loop#1 invariant [store C05] StoreSame(p) && LoopStore(p)
 //@   loop#1 invariant [prefix C01] ChoicePre(ch, p.data, idx, old(p.pt.offset))
 //@   loop#1 invariant [mono] Budget(p)
 //@   loop#1 invariant [stacks C02 C14] Stacks(p) && p.maxFailInvertExpected == old(p.maxFailInvertExpected)
@@ -620,6 +707,8 @@ package builder
 //@   ensures [inv C01] Inv(p) && InRule(p)
 //@   ensures [peg-and C01] D(and, p.data, old(p.pt.offset), ok, p.pt.offset, val)
 //@   ensures [zero-width C01] p.pt == old(p.pt) && val == nil
+//@   ensures [state-always C05] StoreC(p, false)
+//@   ensures [store C05] StoreC(p, ok)
 //@   ensures [stacks C02 C14] Stacks(p)
 //@   ensures [invert C12] p.maxFailInvertExpected == old(p.maxFailInvertExpected)
 //@   ensures [budget C16] Budget(p)
@@ -634,6 +723,8 @@ package builder
 //@   ensures [inv C01] Inv(p) && InRule(p)
 //@   ensures [peg-not C01] D(not, p.data, old(p.pt.offset), ok, p.pt.offset, val)
 //@   ensures [zero-width C01] p.pt == old(p.pt) && val == nil
+//@   ensures [state-always C05] StoreC(p, false)
+//@   ensures [store C05] StoreC(p, ok)
 //@   ensures [stacks C02 C14] Stacks(p)
 //@   ensures [invert C12] p.maxFailInvertExpected == old(p.maxFailInvertExpected)
 //@   ensures [budget C16] Budget(p)
@@ -649,6 +740,7 @@ package builder
 //@   ensures [inv C01] Inv(p) && InRule(p)
 //@   ensures [peg-opt C01] D(expr, p.data, old(p.pt.offset), ok, p.pt.offset, val)
 //@   ensures [always C01] ok && p.pt.offset >= old(p.pt.offset)
+//@   ensures [store C05] StoreC(p, ok)
 //@   ensures [stacks C02 C14] Stacks(p)
 //@   ensures [invert C12] p.maxFailInvertExpected == old(p.maxFailInvertExpected)
 //@   ensures [budget C16] Budget(p)
@@ -663,10 +755,12 @@ package builder
 //@   ensures [inv C01] Inv(p) && InRule(p)
 //@   ensures [peg-star C01] D(expr, p.data, old(p.pt.offset), ok, p.pt.offset, val)
 //@   ensures [always C01] ok && p.pt.offset >= old(p.pt.offset)
+//@   ensures [store C05] StoreC(p, ok)
 //@   ensures [stacks C02 C14] Stacks(p)
 //@   ensures [invert C12] p.maxFailInvertExpected == old(p.maxFailInvertExpected)
 //@   ensures [budget C16] Budget(p)
 //@   loop#1 invariant [inv] Inv(p) && InRule(p)
+//@   loop#1 invariant [store C05] LoopStore(p)
 //@   loop#1 invariant [iter C01] exists k int :: k >= 0 && RepPre(expr.expr, p.data, k, old(p.pt.offset), p.pt.offset, arr(vals)) && len(vals) == k && off(vals) == 0
 //@   loop#1 invariant [mono] p.pt.offset >= old(p.pt.offset) && Budget(p)
 //@   loop#1 invariant [stacks C02 C14] Stacks(p) && p.maxFailInvertExpected == old(p.maxFailInvertExpected)
@@ -682,12 +776,14 @@ package builder
 //@   ensures [inv C01] Inv(p) && InRule(p)
 //@   ensures [peg-plus C01] D(expr, p.data, old(p.pt.offset), ok, p.pt.offset, val)
 //@   ensures [shape C01] Shape(p, val, ok)
+//@   ensures [store C05] StoreC(p, ok)
 //@   ensures [stacks C02 C14] Stacks(p)
 //@   ensures [invert C12] p.maxFailInvertExpected == old(p.maxFailInvertExpected)
 //@   ensures [budget C16] Budget(p)
 //@   loop#1 invariant [inv] Inv(p) && InRule(p)
+//@   loop#1 invariant [store C05] LoopStore(p)
 //@   loop#1 invariant [iter C01] exists k int :: k >= 0 && RepPre(expr.expr, p.data, k, old(p.pt.offset), p.pt.offset, arr(vals)) && len(vals) == k && off(vals) == 0
-//@   loop#1 invariant [first] len(vals) == 0 ==> p.pt == old(p.pt)
+//@   loop#1 invariant [first] len(vals) == 0 ==> p.pt == old(p.pt) && StoreSame(p)
 //@   loop#1 invariant [mono] p.pt.offset >= old(p.pt.offset) && Budget(p)
 //@   loop#1 invariant [stacks C02 C14] Stacks(p) && p.maxFailInvertExpected == old(p.maxFailInvertExpected)
 //@   loop#1 decreases [C16] p.maxExprCnt - p.ExprCnt
@@ -702,6 +798,7 @@ package builder
 //@   ensures [inv C01] Inv(p) && InRule(p)
 //@   ensures [peg-label C01] D(lab, p.data, old(p.pt.offset), ok, p.pt.offset, val)
 //@   ensures [shape C01] Shape(p, val, ok)
+//@   ensures [store C05] StoreC(p, ok)
 //@   ensures [stacks C02 C14] Stacks(p)
 //@   ensures [bind C02] ok && lab.label != "" ==> has(p.vstack[len(p.vstack)-1], lab.label) && p.vstack[len(p.vstack)-1][lab.label] == val
 //@   ensures [invert C12] p.maxFailInvertExpected == old(p.maxFailInvertExpected)
@@ -718,6 +815,7 @@ package builder
 //@   ensures [peg-action C01] D(act, p.data, old(p.pt.offset), ok, p.pt.offset, val)
 //@   ensures [shape C01] Shape(p, val, ok)
 //@   ensures [value C01 C02 local] ok ==> val == actVal
+//@   ensures [store C05] StoreC(p, ok)
 //@   ensures [stacks C02 C14] Stacks(p)
 //@   ensures [invert C12] p.maxFailInvertExpected == old(p.maxFailInvertExpected)
 //@   ensures [budget C16] Budget(p)
@@ -736,6 +834,8 @@ package builder
 //@   ensures [peg-andcode C01] D(and, p.data, old(p.pt.offset), res, p.pt.offset, val)
 //@   ensures [zero-width C01 C02] p.pt == old(p.pt) && val == nil
 //@   ensures [decides C02 local] res == ok
+//@   ensures [state-always C05] StoreC(p, false)
+//@   ensures [store C05] StoreC(p, res)
 //@   ensures [stacks C02 C14] Stacks(p)
 //@   ensures [invert C12] p.maxFailInvertExpected == old(p.maxFailInvertExpected)
 //@   ensures [budget C16] Budget(p)
@@ -754,6 +854,8 @@ package builder
 //@   ensures [peg-notcode C01] D(not, p.data, old(p.pt.offset), res, p.pt.offset, val)
 //@   ensures [zero-width C01 C02] p.pt == old(p.pt) && val == nil
 //@   ensures [decides C02 local] res == !ok
+//@   ensures [state-always C05] StoreC(p, false)
+//@   ensures [store C05] StoreC(p, res)
 //@   ensures [stacks C02 C14] Stacks(p)
 //@   ensures [invert C12] p.maxFailInvertExpected == old(p.maxFailInvertExpected)
 //@   ensures [budget C16] Budget(p)
@@ -771,6 +873,7 @@ package builder
 //@   ensures [inv C01] Inv(p) && InRule(p)
 //@   ensures [peg-statecode C01] D(state, p.data, old(p.pt.offset), ok, p.pt.offset, val)
 //@   ensures [zero-width C01 C02] p.pt == old(p.pt) && val == nil && ok
+//@   ensures [store C05] StoreC(p, ok)
 //@   ensures [stacks C02 C14] Stacks(p)
 //@   ensures [invert C12] p.maxFailInvertExpected == old(p.maxFailInvertExpected)
 //@   ensures [budget C16] Budget(p)
@@ -788,6 +891,7 @@ package builder
 //@   ensures [inv C01] Inv(p) && InRule(p)
 //@   ensures [peg-recovery C01] D(recover, p.data, old(p.pt.offset), ok, p.pt.offset, val)
 //@   ensures [shape C01] Shape(p, val, ok)
+//@   ensures [store C05] StoreC(p, ok)
 //@   ensures [stacks C02 C14] Stacks(p)
 //@   ensures [invert C12] p.maxFailInvertExpected == old(p.maxFailInvertExpected)
 //@   ensures [budget C16] Budget(p)
@@ -804,10 +908,12 @@ package builder
 //@   ensures [inv C01] Inv(p) && InRule(p)
 //@   ensures [peg-throw C01] D(expr, p.data, old(p.pt.offset), ok, p.pt.offset, val)
 //@   ensures [shape C01 C14] Shape(p, val, ok)
+//@   ensures [store C05] StoreC(p, ok)
 //@   ensures [stacks C02 C14] Stacks(p)
 //@   ensures [invert C12] p.maxFailInvertExpected == old(p.maxFailInvertExpected)
 //@   ensures [budget C16] Budget(p)
 //@   loop#1 invariant [inv] Inv(p) && InRule(p) && p.pt == old(p.pt) && i < len(p.recoveryStack)
+//@   loop#1 invariant [store C05] StoreSame(p) && LoopStore(p)
 //@   loop#1 invariant [mono] Budget(p)
 //@   loop#1 invariant [stacks C02 C14] Stacks(p) && p.maxFailInvertExpected == old(p.maxFailInvertExpected)
 //@   loop#1 decreases [C16] i + 1
